@@ -1,4 +1,5 @@
 import NmlVerif.Model.Geom
+import NmlVerif.Model.GeomHand
 import NmlVerif.DrvCommon
 open Lean NmlVerif.Geom NmlVerif.Gen.Geom Drv
 
@@ -8,6 +9,9 @@ Doubles travel as their 64-bit patterns (JSON integers), so nothing is lost in t
 * `{"op":"seg","p":[x,y,z,diam]|null,"d":[x,y,z,diam]}` -> `{"length":R,"volume":R,"area":R,"dist_pd":R,"dist_dp":R}`
 * `{"op":"cell","segs":[[id, p|null, d, [parentId, fract]|null], ...],"q":id,"fuel":n}`
       -> `{"prox":RP,"length":R,"volume":R,"area":R}`
+
+* `"segh"` / `"cellh"`: same inputs and outputs, evaluated with the HAND-WRITTEN model (`Model/GeomHand.lean`)
+  instead of the generated definitions (directed search: generated vs hand on a systematic grid).
 
 `R = {"ok":bits} | {"err":[kind,msg]}`, `RP = {"ok":[x,y,z,diam]} | {"err":…}`. -/
 
@@ -56,6 +60,21 @@ def handle (j : Json) : Json :=
     let fuel := getNat j "fuel"
     Json.mkObj [("prox", resPJ (actualProximal c fuel q)), ("length", resJ (segmentLength c fuel q)),
                 ("volume", resJ (segmentVolume c fuel q)), ("area", resJ (segmentSurfaceArea c fuel q))]
+  | "segh" =>
+    let p := ptOfJ (getObj j "p")
+    let d := (ptOfJ (getObj j "d")).getD zeroPt
+    let s : Seg Float := ⟨p, d, none⟩
+    let dd : List (String × Json) := match p with
+      | some p => [("dist_pd", resJ (Hand.distanceTo p d)), ("dist_dp", resJ (Hand.distanceTo d p))]
+      | none => []
+    Json.mkObj ([("length", resJ (Hand.length s)), ("volume", resJ (Hand.volume s)),
+                 ("area", resJ (Hand.surfaceArea s))] ++ dd)
+  | "cellh" =>
+    let c : Cell Float := (getArr j "segs").toList.map segOfJ
+    let q := getNat j "q"
+    let fuel := getNat j "fuel"
+    Json.mkObj [("prox", resPJ (Hand.actualProximal c fuel q)), ("length", resJ (Hand.segmentLength c fuel q)),
+                ("volume", resJ (Hand.segmentVolume c fuel q)), ("area", resJ (Hand.segmentSurfaceArea c fuel q))]
   | "pi" => Json.mkObj [("ok", fToJ (GeomOps.pi : Float))]
   | _ => Json.mkObj [("error", "unknown op")]
 
